@@ -1,6 +1,9 @@
 /- line-protocol handler for the bitemporal store model (C17)
 
    (bitemp merge T:<stamp> <ts>)     store := bi_merge(store, Bi(ts, stamp));  reply: the rows of the store
+   (bitemp merge T:<stamp> <ts> <N|S:name> <N|S:index name>)   the same merge; the implementation side hands over a Series that has a
+                                      `name` (as every column taken out of a DataFrame has) / whose index has a name; the model has
+                                      no names: a named version is the same publication (review t5)
    (bitemp mergelist (L (T T:<stamp> <ts>)*))   store := bi_merge(store, [Bi(ts, stamp), ...]);  reply: the rows of the store | N
    (bitemp read  <N|T:asof> I:<what>) reply: bi_read(store, asof, what) as a series
    (bitemp read  T:<asof> I:<what> S:<spelling>)  the same read; the implementation side hands the time over in
@@ -75,6 +78,12 @@ def tsfVal (ts : TSF) : Val := .list (ts.map fun p => .tuple [.cell (.dt p.1), .
 def handle (s : St) (op : String) (args : List Sexp) : Option (St × String) := do
   match op, args with
   | "merge", [stamp, ts] =>
+      let stamp ← (← asofOf stamp)
+      let ts ← TS.ofVal (← Val.ofSexp ts)
+      match biMergeE s.store (Bi ts stamp) with
+      | .ok st => pure ({ s with store := some st, rows := s.rows ++ Bi ts stamp }, "ok " ++ (rowsVal st).render)
+      | .error e => pure (s, "err " ++ e.render)
+  | "merge", [stamp, ts, .atom _, .atom _] =>
       let stamp ← (← asofOf stamp)
       let ts ← TS.ofVal (← Val.ofSexp ts)
       match biMergeE s.store (Bi ts stamp) with
